@@ -39,20 +39,26 @@ type world struct {
 	// exporter side (external system: survives manager restarts)
 	// batchMax > 0: the exporter sits behind the real batching driver (drivers.NewWithBatchingDriverFactory, as wired in
 	// production) with maxItems = batchMax and a flush interval of 300us; 0: it is plugged into the Manager directly
-	batchMax      int
-	failItemsNext int    // bit i set: the next Accept refuses item i only (per-item error, nil overall error); batched mode only
-	offeredMax    uint64 // highest id ever handed to the exporter, acknowledged or not
-	partialFails  int
-	failAccepts   int
-	ackedMax      uint64 // highest id acknowledged since the last reset
+	batchMax       int
+	failItemsNext  int    // bit i set: the next Accept refuses item i only (per-item error, nil overall error); batched mode only
+	offeredMax     uint64 // highest id ever handed to the exporter, acknowledged or not
+	partialFails   int
+	failAccepts    int
+	ackedMax       uint64          // highest id acknowledged since the last reset
 	delivered      map[uint64]int  // id -> deliveries since the last reset
 	everDelivered  map[uint64]bool // id -> delivered at least once, ever
 	acceptCalls    int
 	acceptFailures int
+	// syncPeriod is the manager's periodic synchronisation (an hour = never during a case; 400us = all the time: a
+	// stopped but enabled pipeline is then restarted by the manager itself)
+	syncPeriod time.Duration
 	// gates
-	holdStores bool
-	storeGate  chan struct{}
-	heldStores int
+	holdListing  bool // ListEnabledPipelines answers with what it read before the gate was closed, once it is opened
+	listGate     chan struct{}
+	heldListings int
+	holdStores   bool
+	storeGate    chan struct{}
+	heldStores   int
 	// number of held StorePipelineState calls that were issued before the latest reset
 	heldFromOlderEpoch int
 	// progress counters
@@ -66,7 +72,7 @@ type world struct {
 }
 
 func newWorld() *world {
-	return &world{pipelines: map[string]*ledger.Pipeline{}, exporters: map[string]ledger.Exporter{}, delivered: map[uint64]int{}, everDelivered: map[uint64]bool{}, storeGate: make(chan struct{})}
+	return &world{pipelines: map[string]*ledger.Pipeline{}, exporters: map[string]ledger.Exporter{}, delivered: map[uint64]int{}, everDelivered: map[uint64]bool{}, storeGate: make(chan struct{}), listGate: make(chan struct{}), syncPeriod: time.Hour}
 }
 
 // ackedPrefix is the last id n such that every log 1..n has been acknowledged since the last reset.
@@ -248,13 +254,27 @@ func (s storage) ListPipelines(context.Context) (*paginate.Cursor[ledger.Pipelin
 }
 func (s storage) ListEnabledPipelines(context.Context) ([]ledger.Pipeline, error) {
 	s.w.mu.Lock()
-	defer s.w.mu.Unlock()
 	var out []ledger.Pipeline
 	for _, p := range s.w.pipelines {
 		if p.Enabled {
-			out = append(out, *p)
+			cp := *p
+			if p.LastLogID != nil {
+				cp.LastLogID = pointer.For(*p.LastLogID)
+			}
+			out = append(out, cp)
 		}
 	}
+	if s.w.holdListing {
+		// a slow listing: the rows have been read, the answer arrives later
+		gate := s.w.listGate
+		s.w.heldListings++
+		s.w.note("  (ListEnabledPipelines held: %d rows read)", len(out))
+		s.w.mu.Unlock()
+		<-gate
+		s.w.mu.Lock()
+		s.w.heldListings--
+	}
+	s.w.mu.Unlock()
 	return out, nil
 }
 func (s storage) GetPipeline(_ context.Context, id string) (*ledger.Pipeline, error) {
@@ -370,7 +390,7 @@ func (noValidation) ValidateConfig(string, json.RawMessage) error { return nil }
 
 // ---------------------------------------------------------------- the check
 
-const ruleC33 = "the real Manager / PipelineHandler / DriverFacade (real goroutines, pull and retry periods of 200us) over an in-memory Storage and a recording exporter, plugged in directly or behind the real batching driver (maxItems 1, 2 or 5 for pages of 3, flush interval 300us; as wired in production): generated sequences of {append 1-5 logs, make the next 1-3 Accepts fail, make the next Accept refuse single items (per-item errors, batched mode), stop pipeline, start pipeline, reset pipeline, restart the manager, hold / release the StorePipelineState calls, let it run, settle}. Checked at every Accept: batch ascending, contiguous, of the right ledger, and starting no later than (last id acknowledged since the last reset)+1 (behind the batcher, where the batches of a page are sent whatever became of the earlier ones and the page is then retried as a whole: no later than (last id ever offered)+1); at every StorePipelineState: value <= n where 1..n have all been acknowledged since the last reset; at every settle (exporter healthy, pipeline started, gates open; progress measured in the pipeline's own polls): every log has been delivered since the last reset. Not quiescing within the poll budget is inconclusive; non-trivial = sequence with a reset or restart while logs were pending or a store was held, and >= 1 failed Accept; distinct = by action sequence"
+const ruleC33 = "the real Manager / PipelineHandler / DriverFacade (real goroutines, pull and retry periods of 200us) over an in-memory Storage and a recording exporter, plugged in directly or behind the real batching driver (maxItems 1, 2 or 5 for pages of 3, flush interval 300us; as wired in production): generated sequences of {append 1-5 logs, make the next 1-3 Accepts fail, make the next Accept refuse single items (per-item errors, batched mode), hold / release the ListEnabledPipelines calls (a slow listing; with the periodic synchronisation drawn as running every 400us or never), stop pipeline, start pipeline, reset pipeline, restart the manager, hold / release the StorePipelineState calls, let it run, settle}. Checked at every Accept: batch ascending, contiguous, of the right ledger, and starting no later than (last id acknowledged since the last reset)+1 (behind the batcher, where the batches of a page are sent whatever became of the earlier ones and the page is then retried as a whole: no later than (last id ever offered)+1); at every StorePipelineState: value <= n where 1..n have all been acknowledged since the last reset; at every settle (exporter healthy, pipeline started, gates open; progress measured in the pipeline's own polls): every log has been delivered since the last reset. Not quiescing within the poll budget is inconclusive; non-trivial = sequence with a reset or restart while logs were pending or a store was held, and >= 1 failed Accept; distinct = by action sequence"
 
 type sys struct {
 	w        *world
@@ -387,7 +407,7 @@ func newManager(w *world) *replication.Manager {
 		f = drivers.NewWithBatchingDriverFactory(f, logger)
 	}
 	return replication.NewManager(storage{w}, f, logger, noValidation{},
-		replication.WithSyncPeriod(time.Hour),
+		replication.WithSyncPeriod(w.syncPeriod),
 		replication.WithPipelineOptions(replication.WithPullPeriod(200*time.Microsecond), replication.WithPushRetryPeriod(200*time.Microsecond), replication.WithLogsPageSize(3)))
 }
 
@@ -426,6 +446,12 @@ func (s *sys) releaseHolds() {
 		close(w.storeGate)
 		w.storeGate = make(chan struct{})
 		w.note("release the held StorePipelineState calls")
+	}
+	if w.holdListing {
+		w.holdListing = false
+		close(w.listGate)
+		w.listGate = make(chan struct{})
+		w.note("release the held ListEnabledPipelines calls")
 	}
 	w.mu.Unlock()
 }
@@ -574,6 +600,103 @@ func pinnedBatcherCancelled() (problem string) {
 	return ""
 }
 
+// pinnedResetDuringSlowListing plays, without rapid, the sequence in which a reset could be lost: the periodic
+// synchronisation has read the pipeline row (position 3) and its listing is slow; meanwhile the pipeline is stopped and
+// reset; the listing then returns. Everything must be exported again from the first log.
+func pinnedResetDuringSlowListing() string {
+	w := newWorld()
+	w.syncPeriod = 400 * time.Microsecond
+	m := newManager(w)
+	go m.Run(context.Background())
+	<-m.Started()
+	defer func() {
+		w.mu.Lock()
+		if w.holdListing {
+			w.holdListing = false
+			close(w.listGate)
+		}
+		w.mu.Unlock()
+		ctx, cancel := context.WithTimeout(context.Background(), 10*time.Second)
+		defer cancel()
+		_ = m.Stop(ctx)
+	}()
+	ctx := context.Background()
+	exp, err := m.CreateExporter(ctx, ledger.NewExporterConfiguration("fake", json.RawMessage(`{}`)))
+	if err != nil {
+		return ""
+	}
+	p, err := m.CreatePipeline(ctx, ledger.NewPipelineConfiguration("l1", exp.ID))
+	if err != nil {
+		return ""
+	}
+	w.mu.Lock()
+	for i := 1; i <= 3; i++ {
+		w.logs = append(w.logs, ledger.Log{ID: pointer.For(uint64(i)), Type: ledger.NewTransactionLogType})
+	}
+	w.mu.Unlock()
+	waitFor := func(cond func() bool, d time.Duration) bool {
+		deadline := time.Now().Add(d)
+		for time.Now().Before(deadline) {
+			w.mu.Lock()
+			ok := cond()
+			w.mu.Unlock()
+			if ok {
+				return true
+			}
+			time.Sleep(100 * time.Microsecond)
+		}
+		return false
+	}
+	if !waitFor(func() bool {
+		row := w.pipelines[p.ID]
+		return row != nil && row.LastLogID != nil && *row.LastLogID == 3
+	}, 5*time.Second) {
+		return "" // inconclusive: the first export did not settle
+	}
+	w.mu.Lock()
+	w.holdListing = true
+	w.mu.Unlock()
+	if !waitFor(func() bool { return w.heldListings > 0 }, 2*time.Second) {
+		return ""
+	}
+	done := make(chan struct{})
+	go func() {
+		defer close(done)
+		c, cancel := context.WithTimeout(ctx, 20*time.Second)
+		defer cancel()
+		_ = m.StopPipeline(c, p.ID)
+		_ = m.ResetPipeline(c, p.ID)
+	}()
+	select {
+	case <-done:
+	case <-time.After(5 * time.Millisecond):
+	}
+	w.mu.Lock()
+	w.holdListing = false
+	close(w.listGate)
+	w.listGate = make(chan struct{})
+	w.mu.Unlock()
+	select {
+	case <-done:
+	case <-time.After(25 * time.Second):
+		return ""
+	}
+	if !waitFor(func() bool { return w.resets > 0 }, time.Second) {
+		return ""
+	}
+	if !waitFor(func() bool { return w.delivered[1] > 0 && w.delivered[2] > 0 && w.delivered[3] > 0 }, 3*time.Second) {
+		w.mu.Lock()
+		defer w.mu.Unlock()
+		if w.violation != "" {
+			return w.violation
+		}
+		return fmt.Sprintf("after a reset issued while a listing of the periodic synchronisation was in flight, logs 1..3 are not exported again (delivered since the reset: %v)\nhistory:\n  %s", w.delivered, strings.Join(w.history, "\n  "))
+	}
+	w.mu.Lock()
+	defer w.mu.Unlock()
+	return w.violation
+}
+
 func TestC33(t *testing.T) {
 	st := stats.New("C33", "exploration", ruleC33,
 		"Storage and the exporter driver are in-memory fakes; the Manager, PipelineHandler and DriverFacade are the real code with real goroutines, so the interleaving is only steered (holds, failures, pauses), not owned: a violation is reported with the recorded call history rather than a replayable schedule",
@@ -587,12 +710,18 @@ func TestC33(t *testing.T) {
 	if v := pinnedBatcherCancelled(); v != "" && !stats.SkipPinned() {
 		t.Fatalf("VIOLATION[C33] (pinned: batching driver, sender stopped): %s", v)
 	}
-	st.Set("pinned_sequences", 6)
+	for i := 0; i < 3; i++ {
+		if v := pinnedResetDuringSlowListing(); v != "" && !stats.SkipPinned() {
+			t.Fatalf("VIOLATION[C33] (scripted sequence: export, slow listing of the periodic synchronisation, stop, reset, listing returns): %s", v)
+		}
+	}
+	st.Set("pinned_sequences", 9)
 	n := stats.N(150, 500)
 	st.Set("requested_checks", n)
 	stats.Check(t, n, 33, func(rt *rapid.T) {
 		w := newWorld()
 		w.batchMax = rapid.SampledFrom([]int{0, 0, 1, 2, 2, 5}).Draw(rt, "batchMaxItems")
+		w.syncPeriod = rapid.SampledFrom([]time.Duration{time.Hour, time.Hour, 400 * time.Microsecond}).Draw(rt, "syncPeriod")
 		s := &sys{w: w, m: newManager(w)}
 		go s.m.Run(context.Background())
 		<-s.m.Started()
@@ -601,6 +730,10 @@ func TestC33(t *testing.T) {
 			if w.holdStores {
 				w.holdStores = false
 				close(w.storeGate)
+			}
+			if w.holdListing {
+				w.holdListing = false
+				close(w.listGate)
 			}
 			w.mu.Unlock()
 			ctx, cancel := context.WithTimeout(context.Background(), 10*time.Second)
@@ -781,6 +914,20 @@ func TestC33(t *testing.T) {
 				w.mu.Unlock()
 				actions = append(actions, "hold")
 			},
+			"holdListing": func(t *rapid.T) {
+				if w.syncPeriod >= time.Hour {
+					return // nothing lists the pipelines during the case
+				}
+				w.mu.Lock()
+				if !w.holdListing {
+					w.holdListing = true
+					w.note("hold the ListEnabledPipelines calls (a slow listing of the periodic synchronisation)")
+				}
+				w.mu.Unlock()
+				// let the periodic synchronisation reach its listing
+				time.Sleep(time.Duration(rapid.IntRange(3, 12).Draw(t, "waitForSync100us")) * 100 * time.Microsecond)
+				actions = append(actions, "holdListing")
+			},
 			"releaseStores": func(t *rapid.T) {
 				release()
 				actions = append(actions, "release")
@@ -811,11 +958,11 @@ func TestC33(t *testing.T) {
 		if riskyReset {
 			classes = append(classes, "reset-or-restart-with-pending-work")
 		}
-		classes = append(classes, fmt.Sprintf("batching-maxItems:%d", w.batchMax))
+		classes = append(classes, fmt.Sprintf("batching-maxItems:%d", w.batchMax), fmt.Sprintf("periodic-sync:%v", w.syncPeriod < time.Hour))
 		if partial > 0 {
 			classes = append(classes, "batch-partly-refused")
 		}
-		st.Case(fmt.Sprintf("batch=%d:", w.batchMax)+strings.Join(actions, ","), riskyReset && failedAccepts && fails > 0 && nlogs > 0, func() any {
+		st.Case(fmt.Sprintf("batch=%d sync=%v:", w.batchMax, w.syncPeriod)+strings.Join(actions, ","), riskyReset && failedAccepts && fails > 0 && nlogs > 0, func() any {
 			h := hist
 			if len(h) > 30 {
 				h = h[:30]
